@@ -294,6 +294,10 @@ def run(run):
                 cli_pick += recs[r::max(1, len(recs) // (6 if thorough else 2))][:6 if thorough else 2]
         run.notes['cli_encode_cases'] = cli_encode(run, wd, cli_pick)
         corpus_part(run, wd)
+        # the command line: `decode` in every combination of -j / -a / -m over files of several messages (Cmd.tla) - the format is
+        # decided by the two flags alone and every message of the file is rendered
+        from .. import cmd
+        cmd.run_commands(run, wd, ['decode'], seed(), stream_opts=False)
     finally:
         rm_workdir(wd)
     run.assumptions = ['the character-level layout of the two text formats (column 81, repr quoting) is exercised by these replays but not itself modelled in TLA+; the specification fixes the tree and the flat data',
